@@ -27,9 +27,34 @@ from .common import txt
 METHODS = ['emit', 'disconnect', 'enter_room', 'leave_room', 'close_room']
 
 
+def _as_message(node):
+    """{key: value ast} of a message expression: a dict display, or
+    dict(<display>, k=v, ...) / dict(k=v, ...)"""
+    if isinstance(node, ast.Dict):
+        if all(isinstance(k, ast.Constant) for k in node.keys):
+            return {k.value: v for k, v in zip(node.keys, node.values)}
+        return None
+    if isinstance(node, ast.Call) and U(node.func) == 'dict' and \
+            len(node.args) <= 1 and all(k.arg for k in node.keywords):
+        base = {}
+        if node.args:
+            base = _as_message(node.args[0])
+            if base is None:
+                return None
+        base = dict(base)
+        for k in node.keywords:
+            base[k.arg] = k.value
+        return base
+    return None
+
+
 def published_literals(m, cname):
-    """[(FuncInfo, Dict node, method value, {key: value ast})]"""
+    """[(FuncInfo, node, method value, {key: value ast})] for every message
+    a method of the class builds: dict displays carrying a constant 'method'
+    and - looking through helpers introduced later - whatever expression
+    reaches a _publish / _handle_<method> call as its message on some path"""
     out = []
+    seen = set()
     c = m.cls(cname)
     for f in c.methods.values():
         for n in walk_own(f.node):
@@ -39,6 +64,30 @@ def published_literals(m, cname):
                 if 'method' in keys and isinstance(keys['method'],
                                                    ast.Constant):
                     out.append((f, n, keys['method'].value, keys))
+                    seen.add((f.name, keys['method'].value))
+    from ..known_names import KNOWN_NAMES
+    for f in c.methods.values():
+        if f.name not in KNOWN_NAMES or not any(
+                isinstance(n, ast.Call) and U(n.func) == 'self._publish'
+                for n in walk_own(f.node)):
+            continue
+        try:
+            run = run_function(f, m, max_iter=1)
+        except AnalysisError:
+            continue
+        for p in run.paths:
+            for e in p.calls('_publish'):
+                if not e.expr.args:
+                    continue
+                msg = _as_message(strip_await(run.expand(e.expr.args[0])))
+                if not msg or not isinstance(msg.get('method'),
+                                             ast.Constant):
+                    continue
+                meth = msg['method'].value
+                if (f.name, meth) in seen:
+                    continue
+                seen.add((f.name, meth))
+                out.append((f, e.node, meth, msg))
     return out
 
 
